@@ -33,6 +33,7 @@ type Keys struct {
 	keysOnce  chan []byte // Passing keys from the main routine.
 	cursor    chan []byte // Cursor coordinates has been read on stdin.
 	resize    chan bool   // Resize events on Windows are sent on stdin. USED IN WINDOWS
+	readErr   error       // The error returned by the last read on standard input, if any.
 
 	cfg   *inputrc.Config // Configuration file used for meta key settings
 	mutex sync.RWMutex    // Concurrency safety
@@ -42,6 +43,7 @@ type Keys struct {
 // or directly returns if the key stack still/already has available keys.
 func WaitAvailableKeys(keys *Keys, cfg *inputrc.Config) {
 	keys.cfg = cfg
+	keys.readErr = nil
 
 	if len(keys.buf) > 0 && !keys.mustWait {
 		return
@@ -69,6 +71,13 @@ func WaitAvailableKeys(keys *Keys, cfg *inputrc.Config) {
 		// send by ourselves, because we pause reading.
 		keyBuf, err := keys.readInputFiltered()
 		if err != nil && errors.Is(err, io.EOF) {
+			keys.readErr = err
+			return
+		}
+
+		// Any other error is final as well: reading again would fail again.
+		if err != nil {
+			keys.readErr = err
 			return
 		}
 
@@ -95,6 +104,12 @@ func WaitAvailableKeys(keys *Keys, cfg *inputrc.Config) {
 
 		return
 	}
+}
+
+// InputError returns the error with which the last attempt to read keys on standard
+// input failed (io.EOF when the input is closed), or nil if keys could be read.
+func InputError(keys *Keys) error {
+	return keys.readErr
 }
 
 // PopKey is used to pop a key off the key stack without
@@ -223,9 +238,18 @@ func (k *Keys) ReadKey() (key rune, isAbort bool) {
 
 	case k.waiting:
 		buf := <-k.keysOnce
+		if len(buf) == 0 {
+			return key, true
+		}
+
 		key = []rune(string(buf))[0]
 	default:
+		// If no key could be read (input closed or failing), abort.
 		buf, _ := k.readInputFiltered()
+		if len(buf) == 0 {
+			return key, true
+		}
+
 		key = []rune(string(buf))[0]
 	}
 
